@@ -42,6 +42,8 @@ func TestJob(t *testing.T) {
 			err = runAPI(rec, sc)
 		case "resume":
 			err = runResume(rec, sc)
+		case "kill":
+			err = runKill(rec, sc)
 		default:
 			err = fmt.Errorf("unknown scenario kind %q", sc.Kind)
 		}
